@@ -6,7 +6,7 @@ from typing import Dict, List, Optional, Tuple
 
 from fdlstatic import cfg as cfg_lib
 from fdlstatic import idmemo
-from fdlstatic.ctx import Ctx, kwarg
+from fdlstatic.ctx import Ctx, kwarg, kwarg_deep
 from fdlstatic.model import (AnalysisError, FuncInfo, Module, unparse,
                              walk_function, walk_stmts)
 from fdlstatic import roles
@@ -671,8 +671,8 @@ def _shape_rules(ctx: Ctx, rs: RuleSet):
   ok = False
   for c in ctx.calls(it):
     if unparse(c.func) == 'MemoizedTraversal':
-      mi = kwarg(c, 'memoize_internables')
-      rg = kwarg(c, 'registry')
+      mi = kwarg_deep(c, 'memoize_internables', it)
+      rg = kwarg_deep(c, 'registry', it)
       ok = (mi is not None and unparse(mi) == 'memoize_internables' and
             rg is not None and unparse(rg) == 'registry')
   rs.check(ok, rule, f'{it.qualname}:flags',
@@ -709,7 +709,8 @@ def _shape_rules(ctx: Ctx, rs: RuleSet):
   if tv is not None:
     for c in ctx.calls(tv):
       if isinstance(c.func, ast.Attribute) and c.func.attr == 'append' and (
-          c.args and unparse(c.args[0]).endswith('.current_path')):
+          c.args and unparse(roles.deref(tv, c.args[0])).endswith(
+              '.current_path')):
         ok = True
   walk_ok = False
   if tv is not None:
@@ -838,9 +839,15 @@ def _idmemo_rules(ctx: Ctx, rs: RuleSet):
       for owner_q, _ in IDMEMO_REASONS:
         owner = ctx.p.funcs.get(owner_q)
         cb = ctx.p.callback_of(owner) if owner is not None else None
-        if cb is not None and top.qualname in (
-            cb.qualname, getattr(getattr(cb, '_base', None), 'qualname', None)):
-          reason = IDMEMO_REASONS.get((owner_q, s.table))
+        base = getattr(cb, '_base', None) or cb
+        same_fn = cb is not None and top.qualname in (
+            cb.qualname, getattr(base, 'qualname', None))
+        # ... or a class whose instance is the callback: the table is an
+        # attribute of that instance, written by its methods
+        same_cls = cb is not None and getattr(base, 'cls', None) is not None and (
+            getattr(top, 'cls', None) is base.cls)
+        if same_fn or same_cls:
+          reason = IDMEMO_REASONS.get((owner_q, s.table.rsplit('.', 1)[-1]))
     if reason is not None and held:
       rs.ok(rule, s.key, 'accepted: ' + reason, loc)
       rs.exception(rule, s.key, reason)
